@@ -6,6 +6,7 @@ All theorems quantify over every handler behaviour (any `List Op`), every ErrFun
 -/
 import KinModel.Middleware
 import KinModel.Lemmas.C14
+import KinModel.Props.C07
 namespace KinModel.Middleware
 
 /-! ## strict wrapper -/
@@ -105,12 +106,72 @@ theorem warn_validates_delivered_body (ops : List Op) (hv : ValidCodes ops) :
 
 /-! ## Validator.Middleware -/
 
+def witnessCfg0 : Cfg := { strict := true, errOps := defaultErrOps }
+
+
 /-- **handler_iff_route_and_valid.** The wrapped handler is invoked iff a route is found and the request
 validates. -/
 theorem handler_iff_route_and_valid (cfg : Cfg) (env : Env) (ops : List Op) :
     (middleware cfg env ops).handlerRan = true ↔ (env.routeFound = true ∧ env.reqOK = true) := by
   unfold middleware
   cases env.routeFound <;> cases env.reqOK <;> cases cfg.strict <;> simp <;> (repeat' split) <;> simp
+
+/-! ### the request verdict opened up (composition with the C07 model of ValidateRequest) -/
+
+/-- **handler_iff_route_and_request_accepted.** With the request verdict computed by the model of
+ValidateRequest, the handler is invoked iff a route is found, security passes (the operation's own list, or
+the document-level list when the operation has none), every parameter in effect — path-level and
+operation-level, of every location — validates, and the body (when declared and not excluded) validates. -/
+theorem handler_iff_route_and_request_accepted (cfg : Cfg) (rf : Bool) (o : Request.Opts) (op : Request.Op)
+    (d a : String → Bool) (respOK : Nat → Hdr → Bytes → Bool) (ops : List Op) :
+    (middleware cfg (envOf rf o op d a respOK) ops).handlerRan = true ↔
+      (rf = true ∧ Request.Accept o op d a) := by
+  rw [handler_iff_route_and_valid]
+  simp only [envOf, Request.accept_iff]
+
+/-- The document-level security requirement guards operations that declare nothing themselves: no own
+security list, no parameters, no body — if no document-level requirement is satisfied the handler is not
+invoked (and by `rejected_request_answered_by_middleware` the client gets ErrFunc's 400 answer). -/
+theorem document_security_guards_bare_operation (cfg : Cfg) (rf : Bool) (o : Request.Opts)
+    (docSec : List Request.Requirement) (d a : String → Bool) (respOK : Nat → Hdr → Bytes → Bool) (ops : List Op)
+    (hne : docSec ≠ [])
+    (hfail : ∀ r ∈ docSec, ∃ s ∈ r, ¬ (d s = true ∧ a s = true)) :
+    (middleware cfg (envOf rf o (bareOp docSec) d a respOK) ops).handlerRan = false := by
+  rw [← Bool.not_eq_true, handler_iff_route_and_request_accepted]
+  rintro ⟨_, hsec, _, _⟩
+  rcases hsec with h | ⟨r, hr, hall⟩
+  · exact hne (by simpa [Request.securityList, bareOp] using h)
+  · have hr' : r ∈ docSec := by simpa [Request.securityList, bareOp] using hr
+    obtain ⟨s, hs, hns⟩ := hfail r hr'
+    exact hns (hall s hs)
+
+/-- Each single part of the request that fails keeps the handler from running: a failing parameter in
+effect (whatever its level and location), or a failing body that is checked. -/
+theorem failing_part_blocks_handler (cfg : Cfg) (rf : Bool) (o : Request.Opts) (op : Request.Op)
+    (d a : String → Bool) (respOK : Nat → Hdr → Bytes → Bool) (ops : List Op)
+    (h : (∃ p ∈ Request.effective o op, p.ok = false) ∨
+         (op.hasBody = true ∧ o.excludeBody = false ∧ op.bodyOK = false)) :
+    (middleware cfg (envOf rf o op d a respOK) ops).handlerRan = false := by
+  rw [← Bool.not_eq_true, handler_iff_route_and_request_accepted]
+  rintro ⟨_, _, hp, hb⟩
+  rcases h with ⟨p, hpm, hpf⟩ | ⟨h1, h2, h3⟩
+  · have := hp p hpm; simp [hpf] at this
+  · have := hb h1 h2; simp [h3] at this
+
+/-- An operation on which nothing is demanded (no security in effect, all parameters in effect fine, body
+fine or absent) reaches the handler as soon as the route exists. -/
+theorem accepted_request_reaches_handler (cfg : Cfg) (o : Request.Opts) (op : Request.Op)
+    (d a : String → Bool) (respOK : Nat → Hdr → Bytes → Bool) (ops : List Op)
+    (h : Request.Accept o op d a) :
+    (middleware cfg (envOf true o op d a respOK) ops).handlerRan = true :=
+  (handler_iff_route_and_request_accepted cfg true o op d a respOK ops).mpr ⟨rfl, h⟩
+
+/-- non-vacuity: a bare operation behind a document-level requirement `[[k]]`, key not accepted → blocked;
+accepted → handler runs -/
+example :
+    (middleware witnessCfg0 (envOf true {} (bareOp [["k"]]) (fun _ => true) (fun _ => false) (fun _ _ _ => true)) []).handlerRan = false ∧
+    (middleware witnessCfg0 (envOf true {} (bareOp [["k"]]) (fun _ => true) (fun _ => true) (fun _ _ _ => true)) []).handlerRan = true := by
+  decide
 
 /-- Otherwise the middleware answers itself: the client holds exactly what ErrFunc wrote for (404,
 ErrCodeCannotFindRoute) resp. (400, ErrCodeRequestInvalid), ErrFunc is called exactly once, and nothing of the
